@@ -219,7 +219,7 @@ fn parse_into(text: &str, path: &str, include_dir: &str, unit: &mut Unit) -> Res
                     unit.rules.extend(sub.rules);
                 }
             }
-            "rewrite" | "type" | "dropstmt" | "stmt" => {
+            "rewrite" | "type" | "dropstmt" | "stmt" | "forloop" => {
                 let r = mk_rule(&d, &a, &origin)?;
                 match cur.as_mut() {
                     Some(t) => t.rules.push(r),
